@@ -11,6 +11,7 @@ import (
 	_ "go.nanomsg.org/mangos/v3/vh/c08"
 	_ "go.nanomsg.org/mangos/v3/vh/c09"
 	_ "go.nanomsg.org/mangos/v3/vh/c10"
+	_ "go.nanomsg.org/mangos/v3/vh/c11"
 	_ "go.nanomsg.org/mangos/v3/vh/c12"
 	_ "go.nanomsg.org/mangos/v3/vh/c13"
 	_ "go.nanomsg.org/mangos/v3/vh/c14"
